@@ -46,6 +46,8 @@ pub enum Eph {
     Fixed(Vec<u8>),
     /// ScriptedRng stream; ephemerals are whatever the write draws
     Scripted(u64),
+    /// the backend's own RNG (OS randomness): labelled sample runs only
+    Os,
 }
 
 #[derive(Clone, PartialEq, Eq, Hash, Debug, Serialize, Deserialize)]
@@ -447,6 +449,7 @@ pub fn build_real(cfg: &Config, side: Side, log: &Log) -> Result<HandshakeState,
     let rng = match &cfg.eph[i] {
         Eph::Fixed(_) => RngMode::Scripted(0x5eed_0000 + i as u64),
         Eph::Scripted(s) => RngMode::Scripted(*s),
+        Eph::Os => RngMode::Os,
     };
     let res = SeamResolver::boxed(cfg.backend[i], rng, cfg.record, log.clone());
     let mut b = Builder::with_resolver(params, res).prologue(&cfg.prologue[i])?;
@@ -958,6 +961,7 @@ impl Exec {
         if errs.is_empty() && self.rhs[i].is_some() && !self.desync {
             let e_priv: Option<Vec<u8>> = match &self.cfg.eph[i] {
                 Eph::Fixed(e) => Some(e.clone()),
+                Eph::Os => None,
                 Eph::Scripted(_) => {
                     // whatever this very call drew
                     let g = self.logs[i].0.lock().unwrap();
